@@ -38,7 +38,7 @@ func rulesC19(c *Ctx) {
 					if !strings.HasSuffix(mt.Elem().String(), "template.Template") {
 						continue // e.g. template.FuncMap: read-only configuration, not a cache
 					}
-					cacheMaps = append(cacheMaps, pst.Field(i).Name())
+					cacheMaps = append(cacheMaps, refFieldName(lastSeg(typeString(T)), pst.Field(i).Name()))
 					k += guardedAccessRule(c, le, "R1", fns, T, pst.Field(i).Name(), "", nil)
 				}
 			}
